@@ -52,6 +52,9 @@ func (c CounterStyle) resolveCounter(counterName string, previousTypes utils.Set
 				continue
 			}
 			counter.merge(extendedCounter)
+		} else if _, hasDecimal := c["decimal"]; hasDecimal && system != "decimal" {
+			// an unknown style is treated as if it was "decimal"
+			extends, system = "extends", "decimal"
 		} else {
 			return &counter
 		}
